@@ -82,12 +82,16 @@ class AggRun(object):
     rules_file = os.path.join(am.scratch, 'aggregation-rules.conf')
     with open(rules_file, 'w') as fh:
       fh.write('# generated\nout.<srv> (%d) = sum in.<srv>.*\n' % cfg['F'])
+      # names that several rules match: one rule maps them onto themselves, another elsewhere (both orders)
       fh.write('keep.<srv> (%d) = sum keep.<srv>\n' % cfg['F'])
+      fh.write('alt.<srv> (%d) = sum keep.<srv>\n' % cfg['F'])
+      fh.write('alt2.<srv> (%d) = sum keep2.<srv>\n' % cfg['F'])
+      fh.write('keep2.<srv> (%d) = sum keep2.<srv>\n' % cfg['F'])
     rm = am.rules.RuleManager
     rm.rules_last_read = 0.0
     rm.rules_file = rules_file
     rm.read_rules()
-    if len(rm.rules) != 2:
+    if len(rm.rules) != 5:
       raise Machinery('rules file not loaded')
     am.events.metricGenerated.handlers[:] = list(am.base_generated)
     self.emitted = []
@@ -134,7 +138,7 @@ class AggRun(object):
     pass
 
   def input(self, s, ts, vid, selfnamed=False):
-    name = ('keep.s%d' % s) if selfnamed else 'in.s%d.h%d' % (s, vid % 2)
+    name = ('%s.s%d' % ('keep' if (len(self.ev) + ts) % 2 else 'keep2', s)) if selfnamed else 'in.s%d.h%d' % (s, vid % 2)
     dp = (ts, float(4 ** vid))
     out = list(self.proc.process(name, dp))
     fwdsame = 1 if all(o == (name, dp) for o in out) else 0
